@@ -284,7 +284,8 @@ func (g *tkGen) sealedPayloads() {
 		}()
 		switch {
 		case panicked != "":
-			g.note("tokens/sealed-payload", "DecodeToken panics on a correctly sealed token with a "+p.name+": "+panicked, fmt.Sprintf("payload=%x", p.b))
+			// C08: parsing ANY byte string as a token never panics — a sealed one included (fixed: fixes/C08-6)
+			g.monfail("tokens/sealed-cid-panic", "DecodeToken panics on a correctly sealed token with a "+p.name+": "+panicked, fmt.Sprintf("payload=%x token=%x", p.b, tok))
 		case derr == nil && t != nil && t.RTT < 0:
 			g.note("tokens/sealed-payload", fmt.Sprintf("a correctly sealed token with a %s decodes to RTT %d ns", p.name, int64(t.RTT)), fmt.Sprintf("payload=%x", p.b))
 		}
